@@ -140,6 +140,39 @@ Proof.
     exfalso; congruence).
 Qed.
 
+Lemma GI_cancel : forall s0 kd, GI s0 -> GI (cancel_slot true kd s0) /\
+  (forall t, In t (live (cancel_slot true kd s0)) -> In t (live s0) /\ kkind t <> kd) /\
+  sstate (cancel_slot true kd s0) = sstate s0 /\ srq (cancel_slot true kd s0) = srq s0 /\
+  sremoved (cancel_slot true kd s0) = sremoved s0 /\ stopped (cancel_slot true kd s0) = stopped s0.
+Proof.
+  intros s0 kd G0. unfold cancel_slot. destruct (get_slot kd s0) as [k|] eqn:E.
+  - destruct (is_live s0 k) eqn:L.
+    + apply is_live_In in L. destruct L as (t0 & H0 & E0).
+      split; [apply GI_finish; [exact G0|]; subst; apply (gi_fresh _ G0); exact H0|].
+      split; [|destruct s0; cbn; auto].
+      intros t Ht. cbn in Ht. apply drop_In in Ht. destruct Ht as (Ht & Nk). split; [exact Ht|].
+      intros K. pose proof (gi_tracked _ G0 t Ht) as Tt. rewrite K, E in Tt. congruence.
+    + split; [exact G0|]. split; [|auto]. intros t Ht. split; [exact Ht|]. intros K.
+      pose proof (gi_tracked _ G0 t Ht) as Tt. rewrite K, E in Tt. inversion Tt; subst.
+      assert (is_live s0 (kid t) = true) by (apply is_live_In; eauto). congruence.
+  - split; [exact G0|]. split; [|auto]. intros t Ht. split; [exact Ht|]. intros K.
+    pose proof (gi_tracked _ G0 t Ht) as Tt. rewrite K, E in Tt. discriminate.
+Qed.
+
+Lemma GI_cancel_both : forall s, GI s ->
+  let s2 := cancel_slot true TR (cancel_slot true RQ s) in
+  GI s2 /\ live s2 = [] /\ sstate s2 = sstate s /\ sremoved s2 = sremoved s /\ stopped s2 = stopped s.
+Proof.
+  intros s G. cbn zeta.
+  destruct (GI_cancel s RQ G) as (G1 & L1 & A1 & _ & A3 & A4).
+  destruct (GI_cancel _ TR G1) as (G2 & L2 & B1 & _ & B3 & B4).
+  set (s2 := cancel_slot true TR (cancel_slot true RQ s)) in *.
+  split; [exact G2|]. split; [|repeat split; congruence].
+  assert (N : forall t, ~ In t (live s2)).
+  { intros t Ht. destruct (L2 t Ht) as (H2 & K2). destruct (L1 t H2) as (_ & K1). destruct (kkind t); congruence. }
+  destruct (live s2) as [|t r]; [reflexivity|]. exfalso. apply (N t). cbn. auto.
+Qed.
+
 Lemma GI_stop : forall f s, c_rq f = true -> c_tr f = true -> GI s -> GI (do_stop f s) /\
   (stoppable s = true -> live (do_stop f s) = [] /\ stopped (do_stop f s) = true /\ sstate (do_stop f s) = Stopped).
 Proof.
@@ -246,7 +279,9 @@ Proof.
   - (* Abort *) destruct (sremoved s); cbn [fst snd]; [auto|]. split; [apply (GI_stop f s); auto|auto].
   - (* Pause *) destruct (sremoved s); cbn [fst snd]; [auto|]. split; [apply (GI_stop f s); auto|auto].
   - (* Remove *) destruct (sremoved s); cbn [fst snd]; [auto|]. split; [|auto].
-    apply GI_with_stop_same. apply (GI_stop f s); auto.
+    rewrite Crq, Ctr. destruct (rm_cancels f).
+    + apply GI_with_stop_same. apply GI_cancel_both. apply (GI_stop f s); auto.
+    + apply GI_with_stop_same. apply (GI_stop f s); auto.
   - (* Requeue *) destruct (sremoved s); cbn [fst snd]; [auto|]. destruct (sstate s); cbn [fst snd]; auto using GI_requeue.
   - (* PeerMsg *) destruct (sremoved s); [auto|]. rewrite G3. cbn [negb orb].
     destruct (sdir s), (sstate s) eqn:E; cbn [fst snd]; auto using GI_requeue.
@@ -346,6 +381,12 @@ Proof.
     destruct s2; cbn in *. exact E.
 Qed.
 
+Lemma cancel_slot_nil : forall b kd s, live s = [] -> cancel_slot b kd s = s.
+Proof.
+  intros b kd s L. unfold cancel_slot. destruct b; [|reflexivity]. destruct (get_slot kd s); [|reflexivity].
+  unfold is_live. rewrite L. reflexivity.
+Qed.
+
 Lemma quiet_run : forall f evs s, live s = [] -> sstate s = Stopped -> no_requeue evs = true ->
   after_stop_obs f s evs = [].
 Proof.
@@ -360,7 +401,9 @@ Proof.
         destruct s, kd; cbn in *; auto.
     - destruct (sremoved s); cbn; auto. unfold do_stop, stoppable. rewrite S. auto.
     - destruct (sremoved s); cbn; auto. unfold do_stop, stoppable. rewrite S. auto.
-    - destruct (sremoved s); cbn; auto. unfold do_stop, stoppable. rewrite S. destruct s; cbn in *; auto. }
+    - destruct (sremoved s); cbn; auto.
+      assert (D : do_stop f s = s) by (unfold do_stop, stoppable; rewrite S; reflexivity). rewrite D.
+      destruct (rm_cancels f); [rewrite (cancel_slot_nil _ RQ s L), (cancel_slot_nil _ TR s L)|]; destruct s; cbn in *; auto. }
   destruct (step f s e) as [s' o]. cbn [fst snd] in K. destruct K as (K1 & K2 & K3 & K4). subst o.
   rewrite (IH s' K1 K2 K4). destruct (stopped s); reflexivity.
 Qed.
@@ -372,7 +415,8 @@ Proof.
   intros f s evs e Crq Ctr T SP NRm He NR. cbn zeta.
   destruct (cancel_reaches_slot f s Crq Ctr SP) as (_ & A & B & C). specialize (C T).
   assert (X : stopped (fst (step f s e)) = true /\ live (fst (step f s e)) = [] /\ sstate (fst (step f s e)) = Stopped).
-  { destruct He as [<-|[<-|[<-|[]]]]; cbn [step]; rewrite NRm; cbn [fst]; auto. }
+  { destruct He as [<-|[<-|[<-|[]]]]; cbn [step]; rewrite NRm; cbn [fst]; auto.
+    destruct (rm_cancels f); [rewrite (cancel_slot_nil _ RQ _ C), (cancel_slot_nil _ TR _ C)|]; destruct (do_stop f s); cbn in *; auto. }
   destruct X as (X1 & X2 & X3). split; [exact X1|]. split; [exact X2|]. apply quiet_run; auto.
 Qed.
 
@@ -390,8 +434,8 @@ Lemma fix_characterisation : forall f, c_rq f = true -> c_tr f = true ->
                      tracked (run f (init d) evs)
   else exists d evs, after_stop_obs f (init d) evs <> [].
 Proof.
-  intros [a b c d e g] H1 H2. cbn in H1, H2. subst e g.
-  destruct (all_guards (mkF a b c d true true)) eqn:AG.
+  intros [a b c d e g rm] H1 H2. cbn in H1, H2. subst e g.
+  destruct (all_guards (mkF a b c d true true rm)) eqn:AG.
   - intros dr evs. destruct (guarded_run _ evs (init dr) AG eq_refl eq_refl (GI_init dr)) as (A & B & C).
     split; [exact A|split; [exact B|exact (gi_tracked _ C)]].
   - destruct a, b, c, d; try discriminate AG;
@@ -419,15 +463,70 @@ Qed.
 Lemma remove_partial : forall f s evs, c_rq f = true -> c_tr f = true -> tracked s -> sremoved s = false ->
   (stoppable s = true \/ live s = []) -> after_remove_obs f (fst (step f s Remove)) evs = [].
 Proof.
-  intros f s evs Crq Ctr T NR H. cbn [step]. rewrite NR. cbn [fst]. apply removed_quiet.
-  - destruct (do_stop f s); reflexivity.
-  - destruct H as [SP|L].
-    + destruct (cancel_reaches_slot f s Crq Ctr SP) as (_ & _ & _ & C). specialize (C T).
-      destruct (do_stop f s); cbn in *; exact C.
-    + unfold do_stop. destruct (stoppable s) eqn:SP.
-      * destruct (cancel_reaches_slot f s Crq Ctr SP) as (_ & _ & _ & C). specialize (C T).
-        unfold do_stop in C. rewrite SP in C. destruct (with_stop _ _ _); cbn in *; exact C.
-      * destruct s; cbn in *; exact L.
+  intros f s evs Crq Ctr T NR H. cbn [step]. rewrite NR. cbn [fst].
+  assert (L : live (do_stop f s) = []).
+  { destruct (stoppable s) eqn:SP.
+    - destruct (cancel_reaches_slot f s Crq Ctr SP) as (_ & _ & _ & C). exact (C T).
+    - destruct H as [?|L]; [discriminate|]. unfold do_stop. rewrite SP. exact L. }
+  destruct (rm_cancels f); [rewrite (cancel_slot_nil _ RQ _ L), (cancel_slot_nil _ TR _ L)|]; apply removed_quiet;
+    destruct (do_stop f s); cbn in *; auto.
+Qed.
+
+(* ---- the repaired remove(): whatever the state, nothing of the transfer is live afterwards ------------ *)
+Lemma sremoved_cancel : forall b kd s, sremoved (cancel_slot b kd s) = sremoved s.
+Proof.
+  intros b kd s. unfold cancel_slot. destruct b; [|reflexivity]. destruct (get_slot kd s); [|reflexivity].
+  destruct (is_live s n); [|reflexivity]. destruct s as [d x q rm o1 o2 lv cb nx sp]. reflexivity.
+Qed.
+
+Lemma sremoved_with_stop : forall r b x, sremoved (with_stop r b x) = r.
+Proof. intros r b [d x q rm o1 o2 lv cb nx sp]. reflexivity. Qed.
+
+Lemma sremoved_do_stop : forall f s, sremoved (do_stop f s) = sremoved s.
+Proof.
+  intros f s. unfold do_stop. destruct (stoppable s); [|reflexivity].
+  rewrite sremoved_with_stop, !sremoved_cancel. reflexivity.
+Qed.
+
+Lemma sremoved_step : forall f s e, e <> Remove -> sremoved (fst (step f s e)) = sremoved s.
+Proof.
+  intros f s e N. destruct e; try congruence; cbn [step].
+  - destruct (sremoved s) eqn:R; [cbn; auto|]. destruct (sdir s), (sstate s); cbn [fst];
+      repeat match goal with |- context [if ?c then _ else _] => destruct c end; cbn; destruct s; cbn in *; auto.
+  - destruct (find_task s k) as [[i kd p]|]; [|reflexivity]. destruct p; [|reflexivity].
+    destruct kd; [destruct s; reflexivity|]. destruct (sstate s); destruct s; reflexivity.
+  - destruct (find_task s k) as [[i kd p]|]; [|reflexivity]. destruct kd, p; destruct s; reflexivity.
+  - destruct (find_task s k) as [[i kd p]|]; [|reflexivity]. destruct p; [reflexivity|].
+    unfold task_queue. destruct (sstate s); destruct s; reflexivity.
+  - destruct (find_task s k) as [[i kd p]|]; [|reflexivity]. destruct kd, p; try reflexivity.
+    destruct (sstate s); destruct s; reflexivity.
+  - destruct (find_task s k) as [[i kd p]|]; [|reflexivity]. destruct kd, p; try reflexivity.
+    destruct (sstate s); destruct s; reflexivity.
+  - destruct (find_task s k) as [[i kd p]|]; [|reflexivity]. destruct kd, p; try reflexivity.
+    destruct (sstate s); destruct s; reflexivity.
+  - destruct (find (fun c => fst c =? k) (cbs s)) as [[k' kd]|]; [|reflexivity].
+    destruct (cb_cond f); [destruct (get_slot kd _) as [j|]; [destruct (j =? k)|]|]; destruct s, kd; reflexivity.
+  - destruct (sremoved s) eqn:R; [cbn; auto|]. cbn [fst]. rewrite sremoved_do_stop. exact R.
+  - destruct (sremoved s) eqn:R; [cbn; auto|]. cbn [fst]. rewrite sremoved_do_stop. exact R.
+  - destruct (sremoved s) eqn:R; [cbn; auto|]. destruct (sstate s); destruct s; cbn in *; auto.
+  - destruct (sremoved s) eqn:R; [cbn; auto|]. destruct (sdir s), (sstate s); cbn [fst];
+      repeat match goal with |- context [if ?c then _ else _] => destruct c end; cbn; destruct s; cbn in *; auto.
+Qed.
+
+Lemma removed_run : forall f evs s, all_guards f = true -> c_rq f = true -> c_tr f = true -> rm_cancels f = true ->
+  GI s -> (sremoved s = true -> live s = []) -> after_remove_obs f s evs = [].
+Proof.
+  intros f evs. induction evs as [|e r IH]; intros s AG Crq Ctr Rm G RI; [reflexivity|].
+  destruct (sremoved s) eqn:R.
+  - (* already removed: nothing live, nothing will be *)
+    exact (removed_quiet f (e :: r) s R (RI eq_refl)).
+  - cbn [after_remove_obs]. rewrite R. destruct (GI_step f s e AG Crq Ctr G) as (G' & _).
+    assert (RI' : sremoved (fst (step f s e)) = true -> live (fst (step f s e)) = []).
+    { destruct e; try (rewrite sremoved_step by discriminate; congruence).
+      intros _. cbn [step]. rewrite R, Rm, Crq, Ctr. cbn [fst].
+      destruct (GI_cancel_both (do_stop f s) (proj1 (GI_stop f s Crq Ctr G))) as (_ & L & _).
+      destruct (cancel_slot true TR _); cbn in *; exact L. }
+    destruct (step f s e) as [s' o]. cbn [fst] in *. rewrite (IH s' AG Crq Ctr Rm G' RI'). reflexivity.
 Qed.
 
 (* a download whose own remote-queue attempt is still connecting is completed through a transfer the peer
